@@ -10,6 +10,8 @@
 (*            sizes of one name grow by exactly one per registration (none lost)                   *)
 (*   use? use! use=   use(): membership test (a = 1 found), evaluation, mark - a file is evaluated *)
 (*            at most once, only by a thread holding the use mutex, and the test tells the truth   *)
+(*   stk      o = a per-thread scope/call stack holder touched by the scope machine: a holder      *)
+(*            belongs to ONE thread - whoever touches it first - for the whole execution           *)
 EXTENDS Integers, Sequences, FiniteSets, TLC, Json, IOUtils
 
 Tr == ndJsonDeserialize(IOEnv.TRACE)
@@ -23,14 +25,16 @@ VARIABLES l,
           xo, xd,    \* exclusive owner (0 = none) and recursion depth per mutex
           sh,        \* [mutex -> [thread -> number of shared holds]]
           cnt,       \* [name -> size of the published overload vector, -1 = not seen yet]
-          used, evals
-vars == <<l, xo, xd, sh, cnt, used, evals>>
+          used, evals,
+          own        \* [holder -> thread that owns it, 0 = not touched yet]
+vars == <<l, xo, xd, sh, cnt, used, evals, own>>
 
 Init == /\ l = 1
         /\ xo = [m \in Mx |-> 0] /\ xd = [m \in Mx |-> 0]
         /\ sh = [m \in Mx |-> [t \in Th |-> 0]]
         /\ cnt = [n \in RegNames |-> -1]
         /\ used = {} /\ evals = [f \in UseFiles |-> 0]
+        /\ own = [m \in Mx |-> 0]
 
 E == Tr[l]
 T == E.t + 1000          \* thread ids start at 0; 0 means "no owner"
@@ -43,36 +47,40 @@ AcqX == /\ K("acq") /\ E.a = 1
         /\ (xo[E.o] = 0 \/ xo[E.o] = T)          \* free, or re-entered by its owner (recursive mutex)
         /\ ~OthersShare(E.o) /\ sh[E.o][E.t] = 0
         /\ xo' = [xo EXCEPT ![E.o] = T] /\ xd' = [xd EXCEPT ![E.o] = @ + 1]
-        /\ UNCHANGED <<sh, cnt, used, evals>>
+        /\ UNCHANGED <<sh, cnt, used, evals, own>>
 RelX == /\ K("rel") /\ E.a = 1 /\ HoldsX(E.o)
         /\ xd' = [xd EXCEPT ![E.o] = @ - 1]
         /\ xo' = [xo EXCEPT ![E.o] = IF xd[E.o] = 1 THEN 0 ELSE T]
-        /\ UNCHANGED <<sh, cnt, used, evals>>
+        /\ UNCHANGED <<sh, cnt, used, evals, own>>
 AcqS == /\ K("acq") /\ E.a = 0 /\ xo[E.o] = 0
         /\ sh' = [sh EXCEPT ![E.o][E.t] = @ + 1]
-        /\ UNCHANGED <<xo, xd, cnt, used, evals>>
+        /\ UNCHANGED <<xo, xd, cnt, used, evals, own>>
 RelS == /\ K("rel") /\ E.a = 0 /\ HoldsS(E.o)
         /\ sh' = [sh EXCEPT ![E.o][E.t] = @ - 1]
-        /\ UNCHANGED <<xo, xd, cnt, used, evals>>
+        /\ UNCHANGED <<xo, xd, cnt, used, evals, own>>
 Acc == /\ K("acc")
        /\ IF E.a = 1 THEN HoldsX(E.o) ELSE (HoldsX(E.o) \/ HoldsS(E.o))
-       /\ UNCHANGED <<xo, xd, sh, cnt, used, evals>>
+       /\ UNCHANGED <<xo, xd, sh, cnt, used, evals, own>>
 Reg == /\ K("reg") /\ HoldsX(E.o)
        /\ (cnt[E.n] = -1 \/ E.a = cnt[E.n] + 1)
        /\ E.a >= 1
        /\ cnt' = [cnt EXCEPT ![E.n] = E.a]
-       /\ UNCHANGED <<xo, xd, sh, used, evals>>
+       /\ UNCHANGED <<xo, xd, sh, used, evals, own>>
 UseTest == /\ K("use?") /\ HoldsX(E.o)
            /\ (E.a = 1) = (E.n \in used)
-           /\ UNCHANGED <<xo, xd, sh, cnt, used, evals>>
+           /\ UNCHANGED <<xo, xd, sh, cnt, used, evals, own>>
 UseEval == /\ K("use!") /\ HoldsX(E.o) /\ E.n \notin used /\ evals[E.n] = 0
            /\ evals' = [evals EXCEPT ![E.n] = 1]
-           /\ UNCHANGED <<xo, xd, sh, cnt, used>>
+           /\ UNCHANGED <<xo, xd, sh, cnt, used, own>>
 UseMark == /\ K("use=") /\ HoldsX(E.o) /\ evals[E.n] = 1
            /\ used' = used \cup {E.n}
-           /\ UNCHANGED <<xo, xd, sh, cnt, evals>>
+           /\ UNCHANGED <<xo, xd, sh, cnt, evals, own>>
 
-Next == AcqX \/ RelX \/ AcqS \/ RelS \/ Acc \/ Reg \/ UseTest \/ UseEval \/ UseMark
+Stk == /\ K("stk") /\ (own[E.o] = 0 \/ own[E.o] = T)
+       /\ own' = [own EXCEPT ![E.o] = T]
+       /\ UNCHANGED <<xo, xd, sh, cnt, used, evals>>
+
+Next == AcqX \/ RelX \/ AcqS \/ RelS \/ Acc \/ Reg \/ UseTest \/ UseEval \/ UseMark \/ Stk
 TraceSpec == Init /\ [][Next]_vars
 
 MutualExclusion == \A m \in Mx : xo[m] # 0 => \A t \in Th : (t + 1000 # xo[m]) => sh[m][t] = 0
